@@ -364,6 +364,78 @@ pub mod lists {
 // ===========================================================================
 // integrate: trapezoid, Simpson, trapezoid on a grid
 
+
+pub mod longlists {
+    //! Long lists with one dominant entry and a long tail of small ones. The sum divided by the
+    //! largest operand stays below ~250, so the accumulated error bound of the fast exponential
+    //! (8.9e-6 per unit of that ratio) stays inside the stated 0.5 percent; but thousands of
+    //! individually negligible entries add up to a visible share of the result.
+    use super::*;
+
+    #[derive(Serialize, Deserialize, Debug, Clone)]
+    pub struct Case {
+        /// log value of the dominant entry, in thousandths
+        pub top_milli: i64,
+        /// number of tail entries
+        pub n: u32,
+        /// distance of the tail below the dominant entry, in thousandths of a nat (>= 3000)
+        pub base_off_milli: u32,
+        /// per-entry extra distance, cycled over the tail
+        pub jitter_milli: Vec<u16>,
+        /// position of the dominant entry as a fraction of the list
+        pub top_pos: u16,
+    }
+
+    pub fn check(c: &Case) -> R {
+        ensure!(c.base_off_milli >= 3000 && c.n <= 6000 && c.top_milli <= 0, "harness: case outside the long-list domain");
+        let top = c.top_milli as f64 / 1000.0;
+        let n = c.n as usize;
+        let mut vals: Vec<f64> = (0..n)
+            .map(|i| {
+                let j = if c.jitter_milli.is_empty() { 0 } else { c.jitter_milli[i % c.jitter_milli.len()] as u32 };
+                top - (c.base_off_milli + j) as f64 / 1000.0
+            })
+            .collect();
+        let pos = crate::engine::gen::idx(c.top_pos, n);
+        vals.insert(pos, top);
+        let lps: Vec<LogProb> = vals.iter().map(|&v| LogProb(v)).collect();
+        let reference: f64 = vals.iter().map(|v| (v - top).exp()).sum();
+        let r = *LogProb::ln_sum_exp(&lps);
+        ensure!(!r.is_nan(), "ln_sum_exp of a list of {} entries = NaN ({:?})", vals.len(), c);
+        let img = (r - top).exp();
+        let err = (img - reference).abs();
+        ensure!(err <= TOL, "ln_sum_exp of {} entries (dominant {:e} at index {}, tail {}..{} nats below): image / largest operand = {:e}, linear sum / largest operand = {:e}, difference {:e} > {} ({:?})", vals.len(), top, pos, c.base_off_milli as f64 / 1000.0, (c.base_off_milli as f64 + 65535.0) / 1000.0, img, reference, err, TOL, c);
+        // the last element of the cumulative sum is the same quantity
+        let last = LogProb::ln_cumsum_exp(lps.iter().cloned()).take(lps.len() + 2).last().map(|p| *p);
+        if let Some(l) = last {
+            let img2 = (l - top).exp();
+            let err2 = (img2 - reference).abs();
+            ensure!(err2 <= TOL, "last element of ln_cumsum_exp over {} entries: image / largest operand = {:e}, linear sum / largest = {:e}, difference {:e} > {} ({:?})", vals.len(), img2, reference, err2, TOL, c);
+        }
+        let tail_share = (reference - 1.0) / reference;
+        Ok(Pass::new(n >= 100)
+            .class_if(tail_share > 0.005, "tail carries more than 0.5 percent of the sum")
+            .class_if(tail_share > 0.005 && c.base_off_milli >= 11_600, "tail > 0.5 percent although every tail entry is < 1e-5 of the largest")
+            .class_if(tail_share <= 0.005, "tail below the tolerance")
+            .class_if(n >= 1000, "1000+ entries")
+            .class_if(pos == 0, "dominant entry first")
+            .class_if(pos == n, "dominant entry last")
+            .class_if(top < -50.0, "tiny probabilities (largest < e^-50)"))
+    }
+
+    pub fn strat(_t: Tier) -> BoxedStrategy<Case> {
+        (
+            prop_oneof![2 => Just(0i64), 3 => -5_000i64..=0, 2 => -700_000i64..=-5_000],
+            prop_oneof![1 => 0u32..=99, 2 => 100u32..=999, 4 => 1000u32..=6000],
+            prop_oneof![3 => 3_000u32..=9_000, 4 => 9_000u32..=11_600, 5 => 11_600u32..=13_500, 1 => 13_500u32..=40_000],
+            proptest::collection::vec(0u16..=1500, 0..=6),
+            prop_oneof![1 => Just(0u16), 1 => Just(u16::MAX), 2 => any::<u16>()],
+        )
+            .prop_map(|(top_milli, n, base_off_milli, jitter_milli, top_pos)| Case { top_milli, n, base_off_milli, jitter_milli, top_pos })
+            .boxed()
+    }
+}
+
 pub mod integrate {
     use super::*;
 
@@ -844,6 +916,17 @@ pub fn property() -> Property {
                 strat: lists::strat,
                 check: lists::check,
                 must_reach: &["empty list", "length 1", "length 200", "contains ln(0) entries", "all entries ln(0)", "maximum not first", "spread < 5 (every entry matters)", "spread > 40"],
+                watch: false,
+            }),
+            Box::new(PropSub {
+                name: "C15/long-tail-lists",
+                quick: 16_000,
+                thorough: 400_000,
+                shards_quick: 16,
+                shards_thorough: 16,
+                strat: longlists::strat,
+                check: longlists::check,
+                must_reach: &["tail carries more than 0.5 percent of the sum", "tail > 0.5 percent although every tail entry is < 1e-5 of the largest", "1000+ entries", "dominant entry last"],
                 watch: false,
             }),
             Box::new(PropSub {
